@@ -172,21 +172,30 @@ def make_case(rng):
             big["cl"] = rng.choice([None, "exact"])
             big.pop("cut_by", None)
             slow = 0.25
-    return {"kind": rng.choice(["sync", "gthread", "async"]), "cfg": rng.randrange(len(CFG_VARIANTS)), "read_delay": slow,
+    case = {"kind": rng.choice(["sync", "gthread", "async"]), "cfg": rng.randrange(len(CFG_VARIANTS)), "read_delay": slow,
             "reqs": reqs, "progs": progs,
             "segments": rng.choice([None, None, "bytes", "random", "delayed"])}
+    if rng.random() < 0.1:
+        case["stop_during"] = nreq - 1         # the worker is told to stop while the last request's application runs
+    return case
 
 
 class Router:
     """Dispatches successive requests of one connection to their programs."""
 
-    def __init__(self, e2, specs, scratch):
+    def __init__(self, e2, specs, scratch, worker=None, stop_during=None):
         self.apps = [e2.AppProgram(s, scratch) for s in specs]
         self.n = 0
+        self.worker = worker
+        self.stop_during = stop_during
 
     def __call__(self, environ, start_response):
         i = min(self.n, len(self.apps) - 1)
         self.n += 1
+        if self.stop_during == i and self.worker is not None:
+            # the worker is told to stop (TERM from the master, max_requests reached on another thread) while the application of
+            # this request runs: whatever the server decided before the call, the response still has to be delimited as its head says
+            self.worker.alive = False
         return self.apps[i](environ, start_response)
 
 
@@ -360,7 +369,9 @@ def run_case(run, e2, harnesses, case, scratch):
     if h is None:
         h = harnesses[key] = e2.Harness(case["kind"], CFG_VARIANTS[case["cfg"]], scratch=scratch)
     script = b"".join(render_request(r, i) for i, r in enumerate(case["reqs"]))
-    router = Router(e2, case["progs"], scratch)
+    router = Router(e2, case["progs"], scratch, worker=h.worker, stop_during=case.get("stop_during"))
+    if case.get("stop_during") is not None:
+        run.count("worker_told_to_stop_during_an_application_call")
     seg = None
     if case["segments"] == "bytes" and len(script) < 400:
         seg = [1] * len(script)
@@ -582,7 +593,7 @@ def shard(sh):
 
 def main(tier, seed):
     run = Run(PROP, tier, seed, "exploration", RULE)
-    run.require("responses_parsed", "framing/cl", "framing/chunked", "framing/close", "framing/none",
+    run.require("worker_told_to_stop_during_an_application_call", "responses_parsed", "framing/cl", "framing/chunked", "framing/close", "framing/none",
                 "keepalive_continuations", "programs_with_failure_point", "file_wrapper_programs",
                 "kind/sync", "kind/gthread", "kind/async", "large_response_slow_reader_cases")
     q = tier == "quick"
